@@ -252,6 +252,11 @@ type CrashSeed struct {
 	Tables []TableDef
 	Stmts  []*Stmt
 	Ckpt   bool // force a checkpoint at the end of the seed
+	// Prologue: transactions run after the seed; then the process dies (no crash-point enumeration inside
+	// the prologue: the files keep what the engine wrote), the database is restarted for real (recovery,
+	// losers undone) and the history proper runs in the NEW session. Histories start from a recovered
+	// database this way, not only from a freshly created one.
+	Prologue []HOp
 }
 
 // HistoryRun is the result of executing one history under the recorder.
@@ -308,6 +313,42 @@ func RunHistory(seed *CrashSeed, ops []HOp) *HistoryRun {
 	}
 	if seed.Ckpt {
 		db.Checkpoint()
+	}
+	if len(seed.Prologue) > 0 {
+		ptx := map[int]*Txn{}
+		for _, op := range seed.Prologue {
+			switch op.Kind {
+			case "begin":
+				ptx[op.Txn] = db.Begin()
+			case "stmt":
+				r := ptx[op.Txn].Exec(op.Stmt.SQL())
+				if r.Fail != nil || r.Err != "" || r.Aborted {
+					panic(fmt.Sprintf("prologue statement failed: %s: %+v", op.Stmt.SQL(), r))
+				}
+				model.Apply(op.Txn, op.Stmt)
+			case "commit":
+				if f := ptx[op.Txn].Commit(); f != nil {
+					panic("prologue commit: " + f.String())
+				}
+				model.Commit(op.Txn)
+				delete(ptx, op.Txn)
+			}
+		}
+		for t := range ptx {
+			model.Abort(t) // in flight when the process died: losers of the restart
+		}
+		db.Kill()
+		db, rec, f = OpenRecorded(path, seed.MemKB, false)
+		if f != nil {
+			hr.Fail, hr.FailOp = f, "restart after the prologue"
+			hr.Base = readImage(path)
+			hr.Final = hr.Base
+			hr.States = []*Model{model.Clone()}
+			return hr
+		}
+		// (no statement is issued here: the history proper must be the first thing the new session does -
+		// its records get the first LSNs after the restart. Whether the recovered tables are what the
+		// model says is judged with every crash point of the history, starting with the empty prefix.)
 	}
 	hr.Base = readImage(path)
 	hr.States = []*Model{model.Clone()}
